@@ -35,7 +35,9 @@ pub(super) fn existing_log_files(
                 file_spec.get_suffix().as_deref(),
             ));
         }
-        if selector.with_compressed_files {
+        // (with the suffix "gz" the plain files carry the extension of the compressed ones; they
+        // are never compressed, and must not be listed a second time)
+        if selector.with_compressed_files && file_spec.get_suffix().as_deref() != Some("gz") {
             result.append(&mut file_spec.filter_files(&related_files, infix_filter, Some("gz")));
         }
         if selector.with_r_current {
